@@ -187,7 +187,7 @@ static void mutate(int w, int j, uint64_t kind, uint64_t param) {
     Variant& v = V(p);
     Val child; child.t = (param % 2) ? Val::STR : Val::INT; child.s = gs; child.i = (long)(param % 1000);
     static const char* const collide[4] = {"kamak", "kbmbk", "kcmck", "kdmdk"};   /* same length, first, middle and last character: one hash bucket chain */
-    switch (kind % 16) {   // (assigning a *container* taken from inside the own payload, v = v.toMap()[k].toMap(), is caller misuse as for any container and is not generated)
+    switch (kind % 18) {   // (assigning a *container* taken from inside the own payload, v = v.toMap()[k].toMap(), is caller misuse as for any container and is not generated)
     case 7: { // assign from a handle that lives inside the own payload (e.g. walking down a tree): v = v.toList().front()
       if ((m.t == Val::LIST || m.t == Val::ARR || m.t == Val::MAP) && !m.kids.empty()) { const Variant& cv = v; if (m.t == Val::LIST) v = cv.toList().front(); else if (m.t == Val::ARR) v = cv.toArray()[0]; else v = *cv.toMap().begin(); Val c = m.kids[0].second; m = c; probe("assign_from_nested_handle"); }
       break; }
@@ -207,6 +207,15 @@ static void mutate(int w, int j, uint64_t kind, uint64_t param) {
       break; }
     case 9: { /* remove one key of a map payload */
       if (m.t == Val::MAP && !m.kids.empty()) { size_t at = (size_t)(param % m.kids.size()); std::string key = m.kids[at].first; v.toMap().remove(mkString(key)); m.kids.erase(m.kids.begin() + at); probe("map_key_removed"); }
+      break; }
+    case 16: { /* overwrite a key of a map payload with the handle that is stored under it: m.insert(k, *m.find(k)) */
+      if (m.t == Val::MAP && !m.kids.empty()) { size_t at = (size_t)(param % m.kids.size()); HashMap<String, Variant>& h = v.toMap(); HashMap<String, Variant>::Iterator it = h.find(mkString(m.kids[at].first)); if (it != h.end()) { h.append(mkString(m.kids[at].first), *it); probe("map_key_overwritten_with_itself"); } }
+      break; }
+    case 17: { /* promote a grandchild: v[k] = v[k][first] - the new value lives inside the stored value's payload */
+      if (m.t == Val::MAP) for (size_t at = 0; at < m.kids.size(); ++at) { Val& kid = m.kids[at].second; if ((kid.t == Val::MAP || kid.t == Val::LIST || kid.t == Val::ARR) && !kid.kids.empty()) {
+        HashMap<String, Variant>& h = v.toMap(); HashMap<String, Variant>::Iterator it = h.find(mkString(m.kids[at].first)); if (it == h.end()) break;
+        const Variant& stored = *it; const Variant& inner = kid.t == Val::MAP ? *stored.toMap().begin() : kid.t == Val::LIST ? stored.toList().front() : stored.toArray()[0];
+        h.append(mkString(m.kids[at].first), inner); Val promoted = kid.kids[0].second; m.kids[at].second = promoted; probe("map_child_promoted"); break; } }
       break; }
     case 14: { /* remove an element of an array payload by index; the index may be size() (documented no-op) */
       if (m.t == Val::ARR) { size_t n = m.kids.size(); size_t at = (size_t)(param % (n + 1)); v.toArray().remove(at); if (at < n) m.kids.erase(m.kids.begin() + at); else probe("array_remove_at_size"); }
@@ -362,7 +371,7 @@ static void generate(RunSpec& s, int tier) {
     for (int i = 0; i < n; ++i) {
       Op o; o.task = w; o.a[0] = (int64_t)r(k); o.a[1] = (int64_t)r(k); o.a[2] = (int64_t)r(1000); o.a[3] = (int64_t)r(1000);
       uint64_t c = r(100);
-      if (mapFocus && r(10) < 7) { c = 50; o.a[1] = (int64_t)r(2); bool ins = r(5) < 3; o.a[2] = fam == F_VARIANT ? (int64_t)(16 * r(50) + (ins ? 8 : 9)) : (int64_t)(10 * r(50) + (ins ? 5 : 6)); }
+      if (mapFocus && r(10) < 7) { c = 50; o.a[1] = (int64_t)r(2); bool ins = r(5) < 3; o.a[2] = fam == F_VARIANT ? (int64_t)(18 * r(50) + (ins ? 8 : (r(4) ? 9 : 16 + (int64_t)r(2)))) : (int64_t)(10 * r(50) + (ins ? 5 : 6)); }
       o.code = c < 18 ? O_COPY : c < 34 ? O_ASSIGN : c < 42 ? O_RECREATE : c < 66 ? O_MUTATE : c < 74 ? O_SWAP : c < 84 ? O_SEND : c < 94 ? O_RECV : c < 97 ? O_READ : O_WORK;
       if (o.code == O_ASSIGN && r(10) == 0) o.a[1] = o.a[0];
       s.plan.push_back(o);
